@@ -27,8 +27,10 @@ Thread-local discipline (what the proofs need), per public method:
 Ghost state: `hist`, the history of clear / set-active / set-triggered / set-inactive steps (a step's index
 is its position; the constructor counts as clear step 0, followed by set-active step 1 when the object is
 constructed active); `lastClear` = index of the latest clear step; `actClear` = index of the clear step
-of the activation whose set-active step wrote the latest `true` into `activated`.  A waiter that reads
-`activated = true` records `actClear` in its pc ("the activation it observed").
+of the activation whose set-active step wrote the latest `true` into `activated`; per thread `myClear t` =
+index of the clear step of `t`'s activate() call in progress and `obs t` = the activation observed by `t`'s
+wait() / wait_for() call in progress: the fast-path load that reads `activated = true` records `actClear`
+there (`none` = the call saw the variable inactive, or is a waitActivation).
 
 Any number of threads; spurious wake-ups and time-outs are ordinary events. -/
 namespace ConcVerif.Trigger
@@ -79,23 +81,23 @@ inductive Pc
   | aCalled                       -- before the `activated` load
   | aLockT                        -- saw inactive, before `mlk triggerLock`
   | aClear                        -- holds triggerLock, before `triggered = false`
-  | aUnlockT (c : Nat)            -- cleared (history index `c`), before `mul triggerLock`
-  | aLockA (c : Nat)              -- before `mlk activeLock`
-  | aHold (c : Nat) (st nt : Bool) -- holds activeLock; `st`: stored `activated = true`; `nt`: notified
+  | aUnlockT                      -- cleared, before `mul triggerLock`
+  | aLockA                        -- before `mlk activeLock`
+  | aHold (st nt : Bool)          -- holds activeLock; `st`: stored `activated = true`; `nt`: notified
   | aRet (r : Bool)
   -- trigger (also the nested call inside reset)
   | tCalled (x : Ctx)             -- before the `activated` load
   | tLock (x : Ctx)               -- saw active, before `mlk triggerLock`
   | tHold (x : Ctx) (st nt : Bool) -- holds triggerLock; `st`: stored `triggered = true`; `nt`: notified
   | tRet (r : Bool)
-  -- the four waits; `c` = clear index of the activation observed by the unlocked fast-path load
+  -- the four waits
   | wCalled (k : WKind)           -- wait / wait_for: before the `activated` load
-  | wLock (k : WKind) (c : Option Nat)      -- before `mlk`
-  | wHold (k : WKind) (c : Option Nat) (f : Bool) -- holds the mutex; `f`: loaded `false` since (re)acquiring it
-  | wSleep (k : WKind) (c : Option Nat)     -- inside the cv wait
-  | wTimedOut (k : WKind) (c : Option Nat)  -- timed out, holds the mutex, before the deciding load
-  | wUnlock (k : WKind) (c : Option Nat) (r : Bool) -- before `mul`, result `r`
-  | wRet (k : WKind) (c : Option Nat) (r : Bool)
+  | wLock (k : WKind)             -- before `mlk`
+  | wHold (k : WKind) (f : Bool)  -- holds the mutex; `f`: loaded `false` since (re)acquiring it
+  | wSleep (k : WKind)            -- inside the cv wait
+  | wTimedOut (k : WKind)         -- timed out, holds the mutex, before the deciding load
+  | wUnlock (k : WKind) (r : Bool) -- before `mul`, result `r`
+  | wRet (k : WKind) (r : Bool)
   -- reset
   | rCalled                       -- before `mlk activeLock`
   | rLocked                       -- holds activeLock, before the `activated` load
@@ -131,6 +133,8 @@ structure St where
   hist : List HEv               -- ghost
   lastClear : Nat               -- ghost
   actClear : Nat                -- ghost
+  myClear : Tid → Nat           -- ghost
+  obs : Tid → Option Nat        -- ghost
   pc : Tid → Pc
 
 /-- `TriggerVariable(active)` -/
@@ -138,7 +142,7 @@ def init (active : Bool) : St :=
   { flag := fun m => match m with | .trig => false | .act => active,
     lock := fun _ => none, ws := fun _ => [],
     hist := if active then [.clear 0, .setActive 0] else [.clear 0],
-    lastClear := 0, actClear := 0, pc := fun _ => .idle }
+    lastClear := 0, actClear := 0, myClear := fun _ => 0, obs := fun _ => none, pc := fun _ => .idle }
 
 def St.setPc (s : St) (t : Tid) (p : Pc) : St := { s with pc := upd s.pc t p }
 
@@ -165,10 +169,10 @@ def step (s : St) (t : Tid) (e : Ev) : Option St :=
   match s.pc t, e with
   | .idle, .call .activate => some (s.setPc t .aCalled)
   | .idle, .call .trigger => some (s.setPc t (.tCalled .top))
-  | .idle, .call .wait => some (s.setPc t (.wCalled .wait))
-  | .idle, .call .waitFor => some (s.setPc t (.wCalled .waitFor))
-  | .idle, .call .waitAct => some (s.setPc t (.wLock .waitAct none))
-  | .idle, .call .waitForAct => some (s.setPc t (.wLock .waitForAct none))
+  | .idle, .call .wait => some ({ s with obs := upd s.obs t none }.setPc t (.wCalled .wait))
+  | .idle, .call .waitFor => some ({ s with obs := upd s.obs t none }.setPc t (.wCalled .waitFor))
+  | .idle, .call .waitAct => some ({ s with obs := upd s.obs t none }.setPc t (.wLock .waitAct))
+  | .idle, .call .waitForAct => some ({ s with obs := upd s.obs t none }.setPc t (.wLock .waitForAct))
   | .idle, .call .reset => some (s.setPc t .rCalled)
   | .idle, .call .isActive => some (s.setPc t (.oCalled .act))
   | .idle, .call .isTriggered => some (s.setPc t (.oCalled .trig))
@@ -178,14 +182,14 @@ def step (s : St) (t : Tid) (e : Ev) : Option St :=
   | .aLockT, .mlk .trig => s.acquire .trig t .aClear
   | .aClear, .st .trig false =>
       some ({ s with flag := updS s.flag .trig false, hist := s.hist ++ [HEv.clear t],
-                     lastClear := s.hist.length }.setPc t (.aUnlockT s.hist.length))
-  | .aUnlockT c, .mul .trig => s.release .trig t (.aLockA c)
-  | .aLockA c, .mlk .act => s.acquire .act t (.aHold c false false)
-  | .aHold c false nt, .st .act true =>
+                     lastClear := s.hist.length, myClear := upd s.myClear t s.hist.length }.setPc t .aUnlockT)
+  | .aUnlockT, .mul .trig => s.release .trig t .aLockA
+  | .aLockA, .mlk .act => s.acquire .act t (.aHold false false)
+  | .aHold false nt, .st .act true =>
       some ({ s with flag := updS s.flag .act true, hist := s.hist ++ [HEv.setActive t],
-                     actClear := c }.setPc t (.aHold c true nt))
-  | .aHold c st false, .cna .act => some ({ s with ws := updS s.ws .act [] }.setPc t (.aHold c st true))
-  | .aHold _ true true, .mul .act => s.release .act t (.aRet true)
+                     actClear := s.myClear t }.setPc t (.aHold true nt))
+  | .aHold st false, .cna .act => some ({ s with ws := updS s.ws .act [] }.setPc t (.aHold st true))
+  | .aHold true true, .mul .act => s.release .act t (.aRet true)
   | .aRet r, .ret .activate r' => if r' = r then some (s.setPc t .idle) else none
   -- trigger
   | .tCalled x, .ld .act .sc v =>
@@ -199,36 +203,38 @@ def step (s : St) (t : Tid) (e : Ev) : Option St :=
   -- waits
   | .wCalled k, .ld .act .sc v =>
       if v = s.flag .act then
-        some (s.setPc t (if v then .wLock k (some s.actClear) else .wRet k none true)) else none
-  | .wLock k c, .mlk m => if m = k.side then s.acquire m t (.wHold k c false) else none
-  | .wHold k c _, .ld a .sc v =>
-      if a = k.side ∧ v = s.flag a then
-        some (s.setPc t (if v then .wUnlock k c true else .wHold k c true)) else none
-  | .wHold k c true, .cwt m =>
-      if m = k.side ∧ s.lock m = some t then
-        some ({ s with lock := updS s.lock m none, ws := updS s.ws m (t :: s.ws m) }.setPc t (.wSleep k c))
+        some (if v then { s with obs := upd s.obs t (some s.actClear) }.setPc t (.wLock k)
+              else s.setPc t (.wRet k true))
       else none
-  | .wSleep k c, .cwk m r =>
+  | .wLock k, .mlk m => if m = k.side then s.acquire m t (.wHold k false) else none
+  | .wHold k _, .ld a .sc v =>
+      if a = k.side ∧ v = s.flag a then
+        some (s.setPc t (if v then .wUnlock k true else .wHold k true)) else none
+  | .wHold k true, .cwt m =>
+      if m = k.side ∧ s.lock m = some t then
+        some ({ s with lock := updS s.lock m none, ws := updS s.ws m (t :: s.ws m) }.setPc t (.wSleep k))
+      else none
+  | .wSleep k, .cwk m r =>
       if m = k.side ∧ s.lock m = none then
         match r with
         | .notified =>
             if t ∈ s.ws m then none
-            else some ({ s with lock := updS s.lock m (some t) }.setPc t (.wHold k c false))
+            else some ({ s with lock := updS s.lock m (some t) }.setPc t (.wHold k false))
         | .spurious =>
             if t ∈ s.ws m then
               some ({ s with lock := updS s.lock m (some t), ws := updS s.ws m ((s.ws m).erase t) }.setPc t
-                (.wHold k c false))
+                (.wHold k false))
             else none
         | .timeout =>
             if t ∈ s.ws m ∧ k.timed = true then
               some ({ s with lock := updS s.lock m (some t), ws := updS s.ws m ((s.ws m).erase t) }.setPc t
-                (.wTimedOut k c))
+                (.wTimedOut k))
             else none
       else none
-  | .wTimedOut k c, .ld a .sc v =>
-      if a = k.side ∧ v = s.flag a then some (s.setPc t (.wUnlock k c v)) else none
-  | .wUnlock k c r, .mul m => if m = k.side then s.release m t (.wRet k c r) else none
-  | .wRet k _ r, .ret k' r' => if k' = k.toKind ∧ r' = r then some (s.setPc t .idle) else none
+  | .wTimedOut k, .ld a .sc v =>
+      if a = k.side ∧ v = s.flag a then some (s.setPc t (.wUnlock k v)) else none
+  | .wUnlock k r, .mul m => if m = k.side then s.release m t (.wRet k r) else none
+  | .wRet k r, .ret k' r' => if k' = k.toKind ∧ r' = r then some (s.setPc t .idle) else none
   -- reset
   | .rCalled, .mlk .act => s.acquire .act t .rLocked
   | .rLocked, .ld .act .sc v =>
